@@ -9,6 +9,7 @@ from __future__ import annotations
 import copy
 import functools
 import math
+import os
 import types
 
 from . import core
@@ -923,9 +924,11 @@ class ScriptModel(mesa.Model):
 
     instances = []  # (kwargs, model) of every construction in this process
 
-    def __init__(self, _spec="", **kwargs):
+    def __init__(self, _spec="", _late=None, **kwargs):
         super().__init__()
         self.received = dict(kwargs)
+        if _late is not None:
+            late_worker_schedule(_late, kwargs)
         spec = parse_spec_lines([l for l in _spec.split("\n") if l.strip()])
         self.world = World(spec, self)
         self.datacollector = self.world.dc
@@ -952,6 +955,34 @@ class ScriptModel(mesa.Model):
             self.running = False
         for ws in self._body:
             self._do(ws)
+
+
+def kw_key(kwargs):
+    """a design point as a string (names and value tokens), equal in the parent and in a spawn worker"""
+    return ",".join(f"{k}={encode_val(v)}" for k, v in sorted(kwargs.items()))
+
+
+LATE_CAP = 8.0  # a late run never waits longer for another run to start (e.g. every worker holds a late run)
+LATE_EXTRA = 0.4  # ... and this much longer, so that the other run (milliseconds) is handed back first
+
+
+def late_worker_schedule(late, kwargs):
+    """`runp ... late=j`: the worker completion order.  Runs of the design point `late[0]` finish after some run of another
+    design point that was submitted later: they wait until such a run has been constructed (marker file `late[1]`, touched
+    by every other run of the batch) and a little longer.  Only the schedule changes; the model built is the same."""
+    import time
+
+    key, marker = late
+    if kw_key(kwargs) != key:
+        try:
+            open(marker, "w").close()
+        except OSError:
+            pass
+        return
+    end = time.monotonic() + LATE_CAP
+    while not os.path.exists(marker) and time.monotonic() < end:
+        time.sleep(0.02)
+    time.sleep(LATE_EXTRA)
 
 
 def fmt_kw_tokens(items):
@@ -1089,14 +1120,28 @@ def run_batch(sc):
                     obs.append("err Value")
                     continue
                 obs.append(" ".join(["ok"] + [fmt_kw_tokens([(n[1:], encode_val(v)) for n, v in kw.items()]) for kw in kws]))
-            elif k in ("run", "runp") and len(ws) - (ws[-1] == "prog") == (4 if k == "run" else 5):
+            elif k in ("run", "runp") and run_line_ok(ws):
                 prog = ws[-1] == "prog"
                 it, ms, per = to_nat(ws[1]), to_nat(ws[2]), to_int(ws[3])
                 nproc = to_nat(ws[4]) if k == "runp" else 1
                 if k == "runp" and nproc < 1:
                     raise BadOp(ws)
+                late = to_nat(ws[5][5:]) if k == "runp" and len(ws) > 5 and ws[5].startswith("late=") else None
                 text = "\n".join(spec_lines)
                 cls = functools.partial(ScriptModel, _spec=text)
+                marker_dir = None
+                if late is not None and nproc != 1:
+                    # the design point of run `late` of the work list (recomputed here, not taken from mesa) completes late;
+                    # pointless (and a wait for nothing) unless another design point exists
+                    points = [{}]
+                    for p_, kind_, toks_ in spec.params:
+                        points = [{**c, f"p{p_}": v} for c in points for v in param_values(kind_, toks_)]
+                    keys = [kw_key(c) for c in points]
+                    if late < it * len(keys) and len(set(keys)) > 1:
+                        import tempfile
+
+                        marker_dir = tempfile.mkdtemp(prefix="c13late")
+                        cls = functools.partial(ScriptModel, _spec=text, _late=(keys[late % len(keys)], os.path.join(marker_dir, "started")))
                 ScriptModel.instances.clear()
                 rec = {"iterations": it, "max_steps": ms, "period": per, "nproc": nproc, "spec_text": text, "prog": prog,
                        "params": list(spec.params), "n_m": len(spec.mreps), "n_a": len(spec.areps)}
@@ -1123,6 +1168,11 @@ def run_batch(sc):
                     rec["result"] = "err Index"
                     obs.append("err Index")
                     continue
+                finally:
+                    if marker_dir:
+                        import shutil
+
+                        shutil.rmtree(marker_dir, ignore_errors=True)
                 if nproc == 1:
                     rec["constructed"] = [dict(kw) for kw, _ in ScriptModel.instances]
                     rec["steps_taken"] = [(m.steps, m.user_steps, bool(m.running)) for _, m in ScriptModel.instances]
@@ -1141,6 +1191,16 @@ def run_batch(sc):
             obs.append("bad-op")
     sc.meta["trace"] = {"runs": runs}
     return obs
+
+
+def run_line_ok(ws):
+    """`run it ms per [prog]` | `runp it ms per np [late=j] [prog]`"""
+    ws = ws[:-1] if ws[-1] == "prog" else ws
+    if ws[0] == "run":
+        return len(ws) == 4
+    if len(ws) == 6:
+        return ws[5].startswith("late=") and ws[5][5:].isdigit()
+    return len(ws) == 5
 
 
 OP_SHAPES = {"create": None, "remove": 2, "step": 1, "mset": 3, "mapp": 3, "mdel": 2, "aset": 4, "adel": 3,
@@ -1641,7 +1701,9 @@ def gen_batch_scenario(R, nprocs=(1,), small=False):
         per = R.choice([7, 50])  # larger than any run: first and last collection
     prog = " prog" if R.random() < 0.15 else ""
     for np_ in nprocs:
-        lines.append((f"run {its} {ms} {per}" if np_ == 1 else f"runp {its} {ms} {per} {np_}") + prog)
+        # a worker completion order other than the submission order: the runs of one design point (mostly the first) finish late
+        late = f" late={0 if R.random() < 0.6 else R.randrange(4)}" if np_ != 1 and R.random() < 0.7 else ""
+        lines.append((f"run {its} {ms} {per}" if np_ == 1 else f"runp {its} {ms} {per} {np_}{late}") + prog)
     if R.random() < 0.3 and nprocs == (1,):
         lines.append(f"run {R.choice([1, 2])} {R.choice([0, 2, 4])} {R.choice([-1, 1, 2, 9])}")
     return core.Scenario(lines, {})
